@@ -703,8 +703,15 @@ func c08Instances(add func(*Instance), thorough bool) {
 				}
 				if detach == 0 {
 					for bop := 0; bop <= 3; bop++ {
-						if bop >= 2 && si != 1 {
-							continue // xor/andNot build bitmaps from run chunks: only on array chunks here (C01 covers the kernels)
+						if bop >= 2 && si == 0 {
+							continue // xor/andNot build bitmaps from free run chunks: not here (C01 covers the kernels)
+						}
+						if bop == 2 && si == 2 {
+							continue
+						}
+						if bop == 3 && si == 2 {
+							// Rfull minus an array element: anchored partner element, follow-up mutation confined to the last chunk
+							base = with(base, "bc1", 21, "xb", 131072, "xm", 65535)
 						}
 						add(&Instance{Func: "VerifC08Buffer", Params: with(base, "steps", 1, "c0", 5, "bop", bop)})
 						for _, c1 := range []int{0, 1} {
@@ -718,6 +725,15 @@ func c08Instances(add func(*Instance), thorough bool) {
 					}
 				}
 			}
+		}
+	}
+	// in-place AndNot that empties the first aligned chunk, keeps the second and carries a receiver-only tail chunk
+	// to a lower slot; then a mutation inside that (two-element, buffer-backed) tail chunk
+	for ld := 0; ld <= 2; ld++ {
+		for _, c1 := range []int{0, 1, 3} {
+			add(&Instance{Func: "VerifC08Buffer", Params: P("ak", 3, "akeys", 4, "ac0", 1, "ac1", 220, "ac2", 2, "L", 7, "eff", 1, "ld", ld, "detach", 0,
+				"steps", 2, "c0", 5, "c1", c1, "bop", 3, "xb", 131072, "xm", 65535, "sb", 131072, "sm", 65535, "len", 3,
+				"bk", 2, "bkeys", 4, "bc0", 2, "bc1", 21)})
 		}
 	}
 	// bitmap chunk (8 KiB payload), windowed arguments
